@@ -21,7 +21,7 @@ def SubFlags (s : St) (k : Kind) : Prop :=
   | .bcEv _ => s.trkSys.reacting = false ∧ s.trkEnt.reacting = false ∧ s.trkDsp.reacting = false
   | .entEv _ _ => s.trkSys.reacting = false ∧ s.trkDsp.reacting = false
   | .entReact _ _ => s.trkSys.reacting = false ∧ s.trkEvt.reacting = false ∧ s.trkDsp.reacting = false
-  | .dspReact _ => s.trkSys.reacting = false ∧ s.trkEvt.reacting = false ∧ s.trkEnt.reacting = false
+  | .dspReact _ _ => s.trkSys.reacting = false ∧ s.trkEvt.reacting = false ∧ s.trkEnt.reacting = false
 
 def isCleanup : Cmd → Bool
   | .cleanup _ => true
